@@ -1236,6 +1236,12 @@ class Evaluator:
                 finally:
                     self.stack.pop()
         adj = e['recv'].get('adj') or []
+        if e['name'] in ('sort', 'sort_unstable') and ('slice' in callee or 'Vec' in callee) and not e['args']:
+            # in-place sort of a local collection: the local now holds the sorted sequence
+            lid = self.place_root(e['recv'])
+            if lid is not None and lid in env and e['recv'].get('k') in ('Path',) or (lid is not None and lid in env and self.place_text(e['recv']).count('.') == 0):
+                env[lid] = ('sorted', self.as_iter(recv))
+                return ('unit',)
         if any('Mut' in a and 'Borrow' in a for a in adj) or e.get('recv_ty', '').startswith('&mut'):
             self.emit('mutcall', e, body, callee=callee, args=tuple(args), target=self.place_root(e['recv']),
                       place=self.place_text(e['recv']))
